@@ -44,7 +44,7 @@ def run_slice(ctx, init, maxn, maxi, tag):
     agg = core.TLCResult(rc=0, generated=sum(r.generated for r in results), distinct=sum(r.distinct for r in results),
                          depth=max(r.depth for r in results), coverage={a: cov.get(a, [0, 0]) for a in ACTIONS}, wall=max(r.wall for r in results))
     ctx.add_tlc(agg, f'Linker slice {tag} exhaustive (16 shards)', constants=f'MaxN={maxn} MaxI={maxi} Vals={{0,1,2}}')
-    if tag == 'core':
+    if tag.startswith('core'):
         core.require_coverage(agg, ACTIONS, f'Linker slice {tag}')
     return recs
 
@@ -58,10 +58,15 @@ def run(ctx: core.Ctx) -> None:
                 'replayed on a real BaseLinker (solve_t and solve, two value scalings that separate |d|<tol from d*d<tol) and, for single-submodel '
                 'linkers, against the bare model solved directly. Non-trivial = at least one iteration.')
     core.sany('LinkerMC')
-    maxn, maxi = (2, 2) if quick else (3, 3)
-    for init, tag, mn, mi in (('CoreInit', 'core', maxn, maxi), ('BuildInit', 'build', 3 if not quick else 2, 1), ('OffsetInit', 'offset', maxn, 2)):
+    # thorough: three submodels x two iterations and two submodels x three iterations (three x three emits several million
+    # behaviours: more than the harness can hold)
+    maxn = 2 if quick else 3
+    slices = [('CoreInit', 'core', 2, 2)] if quick else [('CoreInit', 'core', 3, 2), ('CoreInit', 'core-deep', 2, 3)]
+    slices += [('BuildInit', 'build', 3 if not quick else 2, 1), ('OffsetInit', 'offset', maxn, 2)]
+    for init, tag, mn, mi in slices:
         recs = run_slice(ctx, init, mn, mi, tag)
-        payloads = [{'records': ch, 'variants': VARIANTS + (SPAN_VARIANTS if tag == 'build' else []), 'all_variants': (tag != 'core' or not quick), 'seed': ctx.seed}
+        payloads = [{'records': ch, 'variants': VARIANTS + (SPAN_VARIANTS if tag == 'build' else []),
+                     'all_variants': (not tag.startswith('core') or tag == 'core-deep'), 'seed': ctx.seed}
                     for ch in core.chunks(recs, core.NCPU * 2)]
         outs = core.run_workers('harness.replay_linker', payloads)
         ctx.evaluations += sum(o['n'] for o in outs)
